@@ -16,6 +16,27 @@ theorem sliceOK_from {α : Type} (l : List α) (i : Nat) (h : i ≤ l.length) :
     sliceOK (len l) (i : Int) (len l) = true := by
   simp [sliceOK, len]; omega
 
+theorem copy_replicate {α : Type} (s : List α) (z : α) :
+    copy (List.replicate (Int.toNat (len s)) z) s = s := by
+  simp [copy, len]
+theorem fmtInt_len {α : Type} (s : List α) : fmtInt (len s) = decDigits s.length := by
+  have h : ¬ ((s.length : Nat) : Int) < 0 := by omega
+  simp [fmtInt, len, h]
+
+/-! ### natural-number indices -/
+theorem idxOK_nat {α : Type} (l : List α) (i : Nat) : idxOK (len l) (i : Int) = decide (i < l.length) := by
+  simp [idxOK, len]
+theorem at_of_drop {α : Type} [Inhabited α] (l : List α) (i : Nat) (b : α) (t : List α)
+    (h : l.drop i = b :: t) : Go.at l (i : Int) = b := by
+  have : l[i]? = some b := by
+    rw [← List.head?_drop, h]; rfl
+  simp [Go.at, List.getD, this]
+theorem slice_nat {α : Type} (l : List α) (a b : Nat) : slice l (a : Int) (b : Int) = (l.take b).drop a := by
+  simp [slice]
+theorem sliceOK_nat {α : Type} (l : List α) (a b : Nat) :
+    sliceOK (len l) (a : Int) (b : Int) = (decide (a ≤ b) && decide (b ≤ l.length)) := by
+  simp [sliceOK, len]
+
 theorem idxOK_zero_nil {α : Type} : idxOK (len ([] : List α)) 0 = false := by simp [idxOK, len]
 theorem idxOK_zero_cons {α : Type} (a : α) (l : List α) : idxOK (len (a :: l)) 0 = true := by
   simp [idxOK, len]
